@@ -151,4 +151,34 @@ theorem Foreign.notEof {c : Nat} {fr : Frame} (h : Foreign c fr) : isEof c fr = 
   | false => rfl
   | true => have := isEof_stream hd; rw [h.1] at this; cases this
 
+
+/-! ### STOP_SENDING frames -/
+
+def isStop (c : Nat) (fr : Frame) : Bool := fr.chan == c && fr.cmd == STOP
+def hasStop (c : Nat) (q : List Frame) : Bool := q.any (isStop c)
+
+theorem isStop_stream {c : Nat} {fr : Frame} (h : isStop c fr = true) : isStream c fr = true := by
+  simp [isStop, isStream] at *; simp [h]
+
+theorem hasStop_append (c : Nat) (a b : List Frame) : hasStop c (a ++ b) = (hasStop c a || hasStop c b) := by
+  simp [hasStop]
+
+theorem hasStop_noStream (c : Nat) (q : List Frame) (h : noStream c q) : hasStop c q = false := by
+  cases he : hasStop c q with
+  | false => rfl
+  | true =>
+    simp only [hasStop, List.any_eq_true] at he
+    obtain ⟨fr, hm, hfr⟩ := he
+    have := h fr hm
+    rw [isStop_stream hfr] at this; cases this
+
+theorem hasStop_tail {c : Nat} {fr : Frame} {rest : List Frame} (h : hasStop c rest = true) :
+    hasStop c (fr :: rest) = true := by
+  simp only [hasStop, List.any_cons] at h ⊢; rw [h]; simp
+
+theorem Foreign.notStop {c : Nat} {fr : Frame} (h : Foreign c fr) : isStop c fr = false := by
+  cases hd : isStop c fr with
+  | false => rfl
+  | true => have := isStop_stream hd; rw [h.1] at this; cases this
+
 end Sshuttle.Tunnel
